@@ -828,6 +828,24 @@ def r20_1_multiset(ctx, rule: str = 'R20.1') -> List[Ob]:
             except C.CanonError:
                 rng = body_ok = False
             loop_ok = rng and body_ok
+            if not loop_ok and isinstance(lp.target, ast.Name):
+                # the same loop over the elements: `for st in trains[1:]: pooled = np.append(pooled, st.spikes)`
+                it = lp.iter
+                tail = isinstance(it, ast.Subscript) and isinstance(it.value, ast.Name) and it.value.id == q0 and \
+                    isinstance(it.slice, ast.Slice) and isinstance(it.slice.lower, ast.Constant) and it.slice.lower.value == 1 and \
+                    it.slice.upper is None and it.slice.step is None
+                body = [b_ for b_ in lp.body if not isinstance(b_, ast.Pass)]
+                try:
+                    want_el = C.mk_call('np.append', (C.atom(('n', var)), C.atom(('attr', ('n', lp.target.id), 'spikes'))), ())
+                    want_el = want_el if C.is_poly(want_el) else C.atom(want_el)
+                    penv2 = _top_env_of(g)
+                    penv2.vals.pop(var, None)
+                    penv2.vals.pop(lp.target.id, None)
+                    el_ok = len(body) == 1 and isinstance(body[0], ast.Assign) and ast.unparse(body[0].targets[0]) == var and \
+                        C.canon_expr(body[0].value, penv2) == want_el
+                except C.CanonError:
+                    el_ok = False
+                loop_ok = tail and el_ok
         good = init_ok and loop_ok
         detail = f"init={init_ok} loop={loop_ok}"
         verdict = 'ok' if good else 'violation'
@@ -1250,8 +1268,18 @@ def r06_aggregation(ctx, rule_dc: str = 'R06.2', rule_norm: str = 'R06.3') -> Li
                 accs = {a.value.id: a.target.id for a in augs if isinstance(a.target, ast.Name)}
                 t = f"{f.name}: the (value, multiplicity) pairs of all train pairs are pooled by summing each component into its own accumulator"
                 # the final ratio divides the value accumulator by the multiplicity accumulator
-                ratio = [n for n in ast.walk(f.node) if isinstance(n, ast.BinOp) and isinstance(n.op, ast.Div) and
-                         isinstance(n.left, ast.Name) and isinstance(n.right, ast.Name)]
+                ratio = []
+                for n in ast.walk(f.node):
+                    if isinstance(n, ast.BinOp) and isinstance(n.op, ast.Div):
+                        try:
+                            # (a factor 1.0 in front of the numerator is the numerator)
+                            l_ = C.single_atom(C.to_poly(C.canon_expr(n.left, Env())))
+                            r_ = C.single_atom(C.to_poly(C.canon_expr(n.right, Env())))
+                        except C.CanonError:
+                            continue
+                        if l_ and r_ and l_[0] == 'n' and r_[0] == 'n':
+                            ratio.append(ast.BinOp(left=ast.Name(id=l_[1], ctx=ast.Load()), op=ast.Div(),
+                                                   right=ast.Name(id=r_[1], ctx=ast.Load())))
                 good = set(accs) == {v, m} and any(r.left.id == accs[v] and r.right.id == accs[m] for r in ratio if v in accs and m in accs)
                 if good:
                     obs.append(ok(rule_norm, t, f.loc(lp), construct=f"{_fn(f)}::pooled"))
